@@ -32,6 +32,11 @@
 
 #include "../types/xsimd_all_registers.hpp"
 
+#ifdef XSIMD_VERIF
+extern "C" void xsimd_verif_cpuid(int reg[4], int level, int count);
+extern "C" unsigned xsimd_verif_xgetbv();
+#endif
+
 namespace xsimd
 {
     namespace detail
@@ -127,6 +132,11 @@ namespace xsimd
                 auto get_xcr0_low = []() noexcept
                 {
                     uint32_t xcr0;
+#ifdef XSIMD_VERIF
+                    // verification hook: XCR0 from an injected source
+                    xcr0 = xsimd_verif_xgetbv();
+                    return xcr0;
+#endif
 
 #if defined(_MSC_VER) && _MSC_VER >= 1400
 
@@ -154,6 +164,11 @@ namespace xsimd
 
                 auto get_cpuid = [](int reg[4], int level, int count = 0) noexcept
                 {
+#ifdef XSIMD_VERIF
+                    // verification hook: CPUID from an injected source
+                    xsimd_verif_cpuid(reg, level, count);
+                    return;
+#endif
 
 #if defined(_MSC_VER)
                     __cpuidex(reg, level, count);
